@@ -3,13 +3,66 @@ with how many shards, and what the evidence says about them."""
 
 CARGO = ['cargo', 'build', '--release', '--offline', '--bins']
 
+TRIPLE = 'x86_64-unknown-linux-gnu'
+MIRI_RUN = ['cargo', '+nightly', 'miri', 'run', '--offline', '--manifest-path', '/verif/harness-miri/Cargo.toml']
+
 FLAVOURS = {
     'native': dict(
         rustflags='--cfg calloop_verif',
         cmd=CARGO,
         bindir='release',
     ),
+    # one sanitizer per build; nightly toolchain, explicit target triple
+    'asan': dict(
+        rustflags='--cfg calloop_verif -Zsanitizer=address -Cforce-frame-pointers=yes',
+        cmd=['cargo', '+nightly', 'build', '--release', '--offline', '--bins', '--target', TRIPLE],
+        bindir=TRIPLE + '/release',
+    ),
+    'tsan': dict(
+        rustflags='--cfg calloop_verif -Zsanitizer=thread',
+        cmd=['cargo', '+nightly', 'build', '-Zbuild-std', '--release', '--offline', '--bin', 'sched', '--target', TRIPLE],
+        bindir=TRIPLE + '/release',
+    ),
+    # Miri: the harness sources built against the vendored polling (see vendor/polling-miri); the build is a warm-up run
+    'miri': dict(
+        rustflags='--cfg calloop_verif',
+        cwd='harness-miri',
+        env={'MIRIFLAGS': '-Zmiri-disable-isolation'},
+        cmd=MIRI_RUN + ['--bin', 'trans', '--', '--prop', 'C18', '--n', '1', '--out', ''],
+        bindir='.',
+    ),
 }
+
+ASAN_ENV = {'ASAN_OPTIONS': 'halt_on_error=1:detect_leaks=1:abort_on_error=0:symbolize=1', 'RUST_BACKTRACE': '0'}
+TSAN_ENV = {'TSAN_OPTIONS': 'halt_on_error=1:second_deadlock_stack=1'}
+
+
+def asan_leg(binname, cases):
+    return dict(name='asan', bin=binname, flavour='asan', shards=16, tiers=('thorough',), sanitizer='asan', env=ASAN_ENV,
+                timeout=dict(thorough=3000), args=dict(cases=cases))
+
+
+def tsan_leg(cases):
+    return dict(name='tsan', bin='sched', flavour='tsan', shards=16, tiers=('thorough',), sanitizer='tsan', env=TSAN_ENV,
+                timeout=dict(thorough=3000), args=dict(cases=cases))
+
+
+def miri_leg(binname, cases, weakmem=False):
+    flags = '-Zmiri-disable-isolation' + ('' if weakmem else ' -Zmiri-disable-weak-memory-emulation')
+    args = dict(cases=cases)
+    if weakmem:
+        args['weakmem'] = 1
+    return dict(name='miri-weakmem' if weakmem else 'miri', bin=binname, flavour='miri', shards=16, tiers=('thorough',), sanitizer='miri',
+                runner_cmd=MIRI_RUN + ['--bin', binname, '--'], seed_flag='-Zmiri-seed=',
+                env={'MIRIFLAGS': flags, 'RUSTFLAGS': '--cfg calloop_verif', 'CARGO_TARGET_DIR': '/verif/target/miri'},
+                timeout=dict(thorough=3000), args=args)
+
+
+def memcheck_leg(binname, cases):
+    return dict(name='memcheck', bin=binname, flavour='native', shards=8, tiers=('thorough',), sanitizer='memcheck',
+                runner=['valgrind', '--quiet', '--error-exitcode=99', '--errors-for-leak-kinds=definite', '--leak-check=full', '--num-callers=30'],
+                sanitizer_markers=['Invalid read', 'Invalid write', 'uninitialised', 'definitely lost', 'Invalid free', 'Mismatched free'],
+                timeout=dict(thorough=3000), args=dict(cases=cases, budget=1200))
 
 COMMON_ASSUME = [
     'Linux/epoll back end of polling 3.11 only; other platforms are not executed',
@@ -44,7 +97,8 @@ HIST_RULE = ('evaluations = generated histories (10..60 steps; steps are loop op
 def hist(prop, level_text, level_note, extra_assume=(), **kw):
     d = dict(
         level='fault_enumeration' if prop == 'C15' else 'exploration',
-        legs=[dict(name='native', bin='hist', shards=16, timeout=dict(quick=400, thorough=3600))],
+        legs=[dict(name='native', bin='hist', shards=16, timeout=dict(quick=400, thorough=3600)), asan_leg('hist', 60000)]
+        + ([memcheck_leg('hist', 1600)] if prop == 'C06' else []),
         rule=HIST_RULE,
         assumptions=COMMON_ASSUME + list(extra_assume),
         level_text=level_text,
@@ -66,7 +120,8 @@ SCHED_NOTE = ('trusted: the yield-point recorder (thread-local buffers, one rela
 
 def sched(prop, level_text, required, extra_legs=(), **kw):
     d = dict(
-        legs=[dict(name='native', bin='sched', shards=16, timeout=dict(quick=500, thorough=3600))] + list(extra_legs),
+        legs=[dict(name='native', bin='sched', shards=16, timeout=dict(quick=500, thorough=3600))] + list(extra_legs)
+        + [asan_leg('sched', 16000), tsan_leg(16000), miri_leg('sched', 160), miri_leg('sched', 96, weakmem=True)],
         rule=SCHED_RULE,
         assumptions=COMMON_ASSUME + ['unbounded "eventually" is restated as: by quiescence (all client threads joined, loop dispatched until idle), plus a state-based lost-wake predicate (a 200 ms dispatch times out although something is owed)',
                                      'x86-64 host: weak-memory reorderings are visible only to the Miri leg'],
@@ -83,7 +138,7 @@ HIST_LEG = dict(name='hist', bin='hist', shards=8, timeout=dict(quick=400, thoro
 
 PROPS = {
     'C17': dict(
-        legs=[dict(name='native', bin='aio', shards=16, timeout=dict(quick=400, thorough=3600))],
+        legs=[dict(name='native', bin='aio', shards=16, timeout=dict(quick=400, thorough=3600)), asan_leg('aio', 3200), memcheck_leg('aio', 160)],
         rule='evaluations = transfers of a random byte string (1 B .. 512 KiB quick / 4 MiB thorough) through Async adapters over a socketpair or pipe with random chunk sizes (1 B .. 1 MiB), '
              'write/write_all/write_vectored/writable()+direct write against read/read_vectored/readable()+direct read, peer as task or as blocking thread, tasks on calloop\'s executor or under block_on, '
              'fds blocking or non-blocking beforehand, adapters ended by drop or into_inner; every transfer is non-trivial; distinct = distinct (size class, chunk class, transport, who is a thread, modes, blocking-before, driver, ending) tuples',
@@ -147,7 +202,11 @@ PROPS = {
     'C15': hist('C15', 'fault-injection exploration: the n-th register/reregister/unregister of a source fails before or after delegating, fds the poller rejects (regular file, duplicate, closed), failing adapt_io, callbacks returning errors; after each failed call the slot/lifecycle/timer/epoll tables must equal the snapshot taken before it, retries must succeed, later dispatches must not panic and nothing pending may be lost (recovery dispatches after every failing dispatch).', 'trusted: the harness ledger (a record of what the harness did and what the API returned), the instrumented wrapper source (forwards to the real calloop sources, logs, injects the faults a history asks for), poll(2)//proc/self/fdinfo as ground truth for fd readiness and registrations, the statistics hook; real time only through Instants taken by the harness around calls'),
     'C16': hist('C16', "sampled runtime exploration comparing /proc/self/fdinfo of the loop's epoll fd with the ledger after every step and dispatch: every enabled source's fds with interest/mode mask and the source's key, nothing else; released fds (removed Generic, unwrapped adapter) are inserted again and must be accepted. Histories with a registration failure are not judged (the property excludes them).", 'trusted: the harness ledger (a record of what the harness did and what the API returned), the instrumented wrapper source (forwards to the real calloop sources, logs, injects the faults a history asks for), poll(2)//proc/self/fdinfo as ground truth for fd readiness and registrations, the statistics hook; real time only through Instants taken by the harness around calls'),
     'C18': dict(
-        legs=[dict(name='native', bin='trans', shards=16, timeout=dict(quick=300, thorough=3000))],
+        legs=[dict(name='native', bin='trans', shards=16, timeout=dict(quick=300, thorough=3000)),
+              dict(name='asan', bin='trans', flavour='asan', shards=16, tiers=('thorough',), sanitizer='asan', env=ASAN_ENV, timeout=dict(thorough=3000), args=dict(n=7, nreal=6)),
+              dict(name='miri', bin='trans', flavour='miri', shards=16, tiers=('thorough',), sanitizer='miri', runner_cmd=MIRI_RUN + ['--bin', 'trans', '--'],
+                   env={'MIRIFLAGS': '-Zmiri-disable-isolation', 'RUSTFLAGS': '--cfg calloop_verif', 'CARGO_TARGET_DIR': '/verif/target/miri'},
+                   timeout=dict(thorough=3000), args=dict(n=5, nreal=0))],
         rule='evaluations = protocol-conforming operation sequences executed against the real TransientSource '
              '(every sequence of length 1..n over {child returns Continue/Reregister/Disable/Remove, remove(), replace(), '
              'map(), parent register/reregister/unregister}, from From<T> and from Default; mock child by direct calls, '
